@@ -25,10 +25,10 @@ theorem clean_fresh (c : Lut K) : Clean (fresh c) := ⟨rfl, rfl⟩
 
 theorem invalidate_clean (s : RegState K) (h : Clean s) : Clean (invalidate cfg s) := by
   obtain ⟨h1, h2⟩ := h
-  cases hp : cfg.purgeDerived <;> cases hc : cfg.clearCache <;> simp [invalidate, Clean, hp, hc, h1, h2]
+  cases hp : cfg.purgeDerived <;> simp [invalidate, Clean, hp, h1, h2]
 
-theorem editSafe_clean (s : RegState K) (h : Clean s) (sym : String) (d : Bool) :
-    editSafe parse s sym d = true := by
+theorem editSafe_clean (s : RegState K) (h : Clean s) (sym : String) (d cl : Bool) :
+    editSafe parse s sym d cl = true := by
   simp [editSafe, h.1, h.2]
 
 /-- an edit keeps a clean state clean and is safe in it -/
@@ -37,23 +37,23 @@ theorem edit_clean (s : RegState K) (h : Clean s) (op : Op K) (he : op.isEdit = 
   have hi := invalidate_clean cfg s h
   cases op with
   | add sym e =>
-    exact ⟨editSafe_clean parse _ hi sym false, by simp [step, Clean, hi.1, hi.2]⟩
+    exact ⟨editSafe_clean parse _ hi sym false _, by cases hc : cfg.clearCache <;> simp [step, Clean, cacheAfterEdit, hc, hi.1, hi.2]⟩
   | addInvalid sym => exact ⟨rfl, by simpa [step] using hi⟩
   | modifyF sym v =>
-    refine ⟨editSafe_clean parse _ hi sym true, ?_⟩
+    refine ⟨editSafe_clean parse _ hi sym true _, ?_⟩
     simp only [step]; split
     · exact hi
-    · simp [Clean, hi.1, hi.2]
+    · cases hc : cfg.clearCache <;> simp [Clean, cacheAfterEdit, hc, hi.1, hi.2]
   | modifyQ sym v d own =>
-    refine ⟨editSafe_clean parse _ hi sym true, ?_⟩
+    refine ⟨editSafe_clean parse _ hi sym true _, ?_⟩
     simp only [step]; split
     · exact hi
-    · split <;> simp [Clean, hi.1, hi.2]
+    · cases hc : cfg.clearCache <;> split <;> simp [Clean, cacheAfterEdit, hc, hi.1, hi.2]
   | remove sym =>
-    refine ⟨editSafe_clean parse _ hi sym true, ?_⟩
+    refine ⟨editSafe_clean parse _ hi sym true _, ?_⟩
     simp only [step]; split
     · exact hi
-    · simp [Clean, hi.1, hi.2]
+    · cases hc : cfg.clearCache <;> simp [Clean, cacheAfterEdit, hc, hi.1, hi.2]
   | unit q => simp [Op.isEdit] at he
   | contains k => simp [Op.isEdit] at he
   | getitem k => simp [Op.isEdit] at he
